@@ -9,8 +9,8 @@ MANIFEST = dict(
     technique="TLA+ spec (OrmSessionExt.tla EXTENDS OrmSession.tla) + TLC exhaustive model checking; spec->code replay of every state-graph edge into a real Session")
 
 INVS = ["OneIdentity", "OnePerObject"]
-PROPS = ["MergeReturnsIdentity", "MergeUsesExisting", "MergeCopiesLoaded", "MergeKeepsUnloaded", "MergeNoLoadSilent", "MergeIdempotent"]
-FOOTPRINT = ["Merge", "Add", "Flush", "Commit", "Rollback", "Delete", "SetV", "Expire"]
+PROPS = ["MergeTokSeparate", "MergeReturnsIdentity", "MergeUsesExisting", "MergeCopiesLoaded", "MergeKeepsUnloaded", "MergeNoLoadSilent", "MergeIdempotent"]
+FOOTPRINT = ["Merge", "MergeTok", "Add", "Flush", "Commit", "Rollback", "Delete", "SetV", "Expire"]
 
 
 def spec(chk):
@@ -19,9 +19,10 @@ def spec(chk):
         cfgs=[dict(name="merge", acts=["SetV", "Expire", "Merge"], depth=3 if q else 4, deep_depth=4 if q else 5, eoc=True,
                    random=100 if q else 1000),
               dict(name="merge1", acts=["SetV", "Expire", "Merge"], srckeys=(1,), depth=5, edge_sample=0.3 if q else None, deep_depth=None if q else 6,
-                   eoc=True, random=100 if q else 1000)],
+                   eoc=True, random=100 if q else 1000),
+              dict(name="mergetok", acts=["SetV", "Expire", "MergeTok"], depth=6 if q else 7, eoc=True, random=100 if q else 500)],
         invs=INVS, props=PROPS, footprint=FOOTPRINT,
-        nontrivial=lambda frm, act: act["a"] == "Merge")
+        nontrivial=lambda frm, act: act["a"] in ("Merge", "MergeTok"))
 
 
 def main(chk):
